@@ -347,9 +347,16 @@ func run(t *testing.T, tape *simrt.Tape) *common.Outcome {
 				simrt.WaitIdle()
 				simrt.TimeSleep(2 * time.Second)
 				simrt.WaitIdle()
-				for i := 0; i < 100 && len(sub.Out()) > 0; i++ {
-					simrt.TimeSleep(10 * time.Millisecond)
+				// an event may still sit in the emitter, blocked on a slow subscriber's full channel (the
+				// subscriber sleeps 5 ms per event): wait until a 20 ms window passes without any callback,
+				// event or stream being recorded
+				for i := 0; i < 200; i++ {
+					a0 := h.activity
+					simrt.TimeSleep(20 * time.Millisecond)
 					simrt.WaitIdle()
+					if h.activity == a0 && len(sub.Out()) == 0 && h.inflight == 0 {
+						break
+					}
 				}
 				if h.inflight != 0 {
 					continue
@@ -367,6 +374,9 @@ func run(t *testing.T, tape *simrt.Tape) *common.Outcome {
 					sort.Strings(ids)
 					q.open = append(q.open, ids)
 				}
+				// ... and the same window AFTER the reading: nothing may have been in flight while it was taken
+				simrt.WaitIdle()
+				simrt.TimeSleep(20 * time.Millisecond)
 				simrt.WaitIdle()
 				if h.activity == before && h.inflight == 0 && len(sub.Out()) == 0 {
 					q.taken = true
